@@ -172,6 +172,15 @@ def classify(e, scope, depth=0, seen=None):
                 r = scope.resolve(b["s"], e)
                 if r and r[0] == "let" and r[1] is not None and r[1].get("k") == "struct" and r[1]["path"].endswith("JsIdent"):
                     return Cls("safe", "name of a generated identifier")
+                if r and r[0] == "let" and r[1] is not None:
+                    ini = r[1]
+                    while ini.get("k") == "try" or (ini.get("k") == "mcall" and ini["m"] in LOOK_THROUGH):
+                        ini = ini["e"] if ini.get("k") == "try" else ini["recv"]
+                    if ini.get("k") in ("call", "mcall"):
+                        cn = sir.call_name(ini) if ini.get("k") == "call" else ini["m"]
+                        cands = [f for f in scope.all_fns if f["name"] == cn]
+                        if cands and all(f.get("ret") and "JsIdent" in f["ret"] for f in cands):
+                            return Cls("safe", "name of a generated identifier (returned by %s())" % cn)
                 if r and r[0] == "param" and "JsIdent" in (r[1] or ""):
                     return Cls("safe", "name of a generated identifier")
             if sir.expr_str(b) == "self" and scope.fn.get("_impl") == "JsIdent":
@@ -603,7 +612,8 @@ def ident_rule(ctx, sites):
     priv = [g for g in tc.fns if g.name == "gen_private_ident" and g.body]
     priv_ok = False
     for g in priv:
-        for n in sir.walk(g.body):
+        # the `$` may be added in a private helper of the writer (e.g. a block-level allocator)
+        for n in sir.walk_reach(tc, g):
             p = sir.format_call(n)
             if p and p[0] == ("lit", "$"):
                 priv_ok = True
